@@ -114,7 +114,7 @@ func TestVerifC18Cryption(t *testing.T) {
 	})
 }
 
-// Regression (FINDINGS.md, D-C18-1): an empty payload, encrypted as the protocol says
+// Regression (FINDINGS.md, D12): an empty payload, encrypted as the protocol says
 // (one block of PKCS#7 padding), must reach the handler as an empty body.  Shrunk from
 // TestVerifC18Cryption / TestVerifC18ContentSecurity.
 func TestVerifC18RegressEmptyPayloadCryption(t *testing.T) {
